@@ -254,8 +254,8 @@ MUTATORS = {"insert", "push", "extend", "append", "add", "try_add", "push_front"
 RESETTERS = {"clear", "exit", "pop_front", "pop_back", "pop", "remove", "drain", "take", "retain"}
 
 
-def rule_scope(ctx, rep):
-    r = rep.rule("R-C02-scope", "per-scope state of a rule visitor does not leak across scopes: a name table that is filled inside visit_/fold_ methods "
+def rule_scope(ctx, rep, rid="R-C02-scope"):
+    r = rep.rule(rid, "per-scope state of a rule visitor does not leak across scopes: a name table that is filled inside visit_/fold_ methods "
                                 "is also cleared/exited by some visit_/fold_ method (scope boundary), and an Option context set in a method is reset on "
                                 "every path before that method returns", floor=8, floor_what="stateful visitor fields")
     for aid, a in sorted(ctx.facts.adts.items()):
